@@ -50,6 +50,18 @@ func RunOnce(t *testing.T, sc *Scenario, tape *Tape, keepTrace bool) *RunResult 
 // RunOnceLogged is RunOnce with a crash log (see Run.CrashLog).
 func RunOnceLogged(t *testing.T, sc *Scenario, tape *Tape, keepTrace bool, crashLog string) *RunResult {
 	res := &RunResult{Scenario: sc}
+	if sc.Proc != nil {
+		// real clock, real processes: not inside a bubble
+		pr := &procRun{sc: sc, ps: sc.Proc, stats: Stats{Faults: map[string]int{}, Probes: map[string]int{}, AbstractSeen: map[string]bool{}}}
+		pr.execute()
+		res.Violations, res.Stats = pr.viol, pr.stats
+		res.Hash = procHash(sc, pr.viol)
+		if keepTrace {
+			res.Trace = pr.trace
+		}
+		res.Tape = []uint32{}
+		return res
+	}
 	func() {
 		defer func() {
 			if r := recover(); r != nil {
@@ -259,6 +271,25 @@ func MinimiseWith(fails func(*Scenario, []uint32) bool, sc *Scenario, tape []uin
 							best, improved = cand, true
 						}
 					}
+				}
+			}
+		}
+		if best.Proc != nil {
+			for i := len(best.Proc.Jobs) - 1; i >= 0 && len(best.Proc.Jobs) > 1; i-- {
+				cand := cloneScenario(best)
+				cand.Proc.Jobs = append(cand.Proc.Jobs[:i], cand.Proc.Jobs[i+1:]...)
+				if try(cand, bestTape) {
+					best, improved = cand, true
+				}
+			}
+			if best.Proc.ForcedShutdown {
+				cand := cloneScenario(best)
+				cand.Proc.ForcedShutdown = false
+				for i := range cand.Proc.Jobs {
+					cand.Proc.Jobs[i].Cancel = true
+				}
+				if try(cand, bestTape) {
+					best, improved = cand, true
 				}
 			}
 		}
